@@ -64,7 +64,7 @@ def lake_build(targets: list[str], timeout=3600) -> tuple[bool, str]:
 
 def lean_sources() -> list[Path]:
     out = []
-    for sub in ('CirqVerif', 'Driver'):
+    for sub in ('CirqVerif', 'Driver', 'NonVacuity'):
         out += sorted((LEAN / sub).rglob('*.lean'))
     return out
 
